@@ -6,6 +6,7 @@ import vlib
 from vlib import coq_n, coq_bool, coq_list, coq_z
 
 PID = "C03"
+TMP = ".init"      # the temporary-file suffix; main() replaces it by the value read from the source tree
 DUMMY = {"case": -1, "op": "none", "images": [], "steps": [], "hist": "", "old": [], "new": [], "unord": [], "names": [], "fs0": []}
 
 
@@ -173,7 +174,7 @@ FCODES = {60: "the fault-free run did not attempt exactly the canonical step lis
 
 
 def strip_init(n):
-    return (n[:-5], True) if n.endswith(".init") else (n, False)
+    return (n[:-len(TMP)], True) if n.endswith(TMP) else (n, False)
 
 
 def fault_case_coq(fi):
@@ -240,7 +241,7 @@ def fault_case_coq(fi):
             r.get("logs", 0), coq_list([nid(x) for x in r.get("live") or []]), coq_list([nid(x) for x in r.get("reopened") or []]),
             r.get("logs_reopened", 0)))
     # the state when the protocol starts: the files before the operation plus the new files written as .init
-    start = list(fi["start"]) + [n + ".init" for n in (dry.get("lognew") or [])]
+    start = list(fi["start"]) + [n + TMP for n in (dry.get("lognew") or [])]
     txt = "mkfcase %s %s %s %s\n  %s\n  %s" % (
         coq_list([coq_n(i) for i in range(len(names))]),
         coq_list([ent(x) for x in sorted(start, key=lambda n: (ids[strip_init(n)[0]], strip_init(n)[1]))]),
@@ -255,7 +256,7 @@ def delete_abort_signature(run):
     f = run.get("failed") or {}
     if run.get("kind") != "error" or f.get("class") not in ("remove", "rename"):
         return False
-    if f["class"] == "rename" and f.get("name2") != f["name"] + ".init":
+    if f["class"] == "rename" and f.get("name2") != f["name"] + TMP:
         return False
     if any(e["class"] == "logremove" for e in run.get("events") or []):
         return False
@@ -282,7 +283,7 @@ def unordered_gap_signature(run):
     ev = run.get("events") or []
     if run.get("kind") != "error" or f.get("class") not in ("remove", "rename") or f.get("dir") != "u":
         return False
-    if f["class"] == "rename" and f.get("name2") != f["name"] + ".init":
+    if f["class"] == "rename" and f.get("name2") != f["name"] + TMP:
         return False    # only the parking of an input that a reader still holds
     k = run.get("at", -1)
     if not any(e["class"] == "logremove" for e in ev[:k]):
@@ -317,6 +318,26 @@ def pad_segment_signature(ci):
     return bool(ci.get("illformed")) and ci.get("op") in ("level0", "full") and ci.get("mode") == "stream"
 
 
+def source_constants(ck):
+    """names and the intent-log magic the harness needs but the repository does not export: read from the source of the tree under
+    check (fail closed: a constant that cannot be found is reported, never silently replaced by a copy)"""
+    want = {"C03_LOG_MAGIC": ("engine/immutable/compaction_file_info.go", r'compLogMagic\s*=\s*\[\]byte\("([^"]+)"\)'),
+            "C03_UNORDERED_DIR": ("engine/immutable/tssp_reader.go", r'\bunorderedDir\s*=\s*"([^"]+)"'),
+            "C03_TMP_SUFFIX": ("engine/immutable/tssp_reader.go", r'\btmpFileSuffix\s*=\s*"([^"]+)"'),
+            "C03_LOG_DIR": ("engine/immutable/tssp_reader.go", r'\bcompactLogDir\s*=\s*"([^"]+)"')}
+    out = {}
+    for k, (rel, rx) in want.items():
+        try:
+            m = re.search(rx, open(os.path.join(ck.repo, rel)).read())
+        except OSError:
+            m = None
+        if not m:
+            ck.broken.append("C03 translator: constant for %s not found in %s" % (k, rel))
+        else:
+            out[k] = m.group(1)
+    return out
+
+
 def main(ck):
     load_fragment_findings(ck)
     ck.assumptions += [
@@ -345,6 +366,12 @@ def main(ck):
     if ok:
         ck.coq_props(["C03/Props.v", "C03/Refuted.v"])
     ck.log("phase: coq built and property theorems re-checked")
+    consts = source_constants(ck)
+    global TMP
+    TMP = consts.get("C03_TMP_SUFFIX", TMP)
+    ck.cov["constants_read_from_source"] = consts
+    _run = ck.run
+    ck.run = lambda cmd, timeout=900, env=None, **kw: _run(cmd, timeout=timeout, env=dict(consts, **(env or {})), **kw)
     binp = ck.go_build("./cmd/c03", "c03")
     ck.log("phase: harness built")
     if not binp:
